@@ -364,7 +364,7 @@ theorem sample_array_dtype_keeps_values (rows : List (List Int)) (w : Nat) (out 
   sampleArrayInt_values rows w out h
 
 /-- a type is found exactly when the largest magnitude fits `int64`, or — where the source keeps an int64 array as it is (flag
-    regenerated from the `except StopIteration` branch; the fix of D60) — every entry is an int64, i.e. the extreme is `-2^63`;
+    regenerated from the `except StopIteration` branch; the fix of D-r7b1) — every entry is an int64, i.e. the extreme is `-2^63`;
     otherwise `ValueError` -/
 theorem sample_array_dtype_ok_iff (rows : List (List Int)) :
     (∃ r, sampleArrayInt rows = .ok r) ↔
